@@ -159,6 +159,11 @@ pub struct Projected {
 
 /// Projects the raw hook events of ONE chain (possibly several run() calls) onto spec events.
 pub fn project(raw: &Raw, own: &OwnN, tol: f64) -> Projected {
+    project_with(raw, own, tol, 0.8, false)
+}
+
+/// `delta`: requested acceptance statistic; `forced`: the step size was set by the harness before the first run.
+pub fn project_with(raw: &Raw, own: &OwnN, tol: f64, delta: f64, forced: bool) -> Projected {
     let mut out = Projected { tree: vec![], adapt: vec![], bad: vec![], depth_max: 0, moved: 0 };
     let mut known: HashMap<(Vec<u64>, Vec<u64>), i64> = HashMap::new(); // (pos, mom) -> offset
     let mut by_pos: HashMap<Vec<u64>, Vec<i64>> = HashMap::new();
@@ -169,6 +174,13 @@ pub fn project(raw: &Raw, own: &OwnN, tol: f64) -> Projected {
     let mut theta_off: i64 = 0;
     let mut pos_before: Vec<f64> = vec![];
     let mut tree_ev: Option<Value> = None;
+    // adaptation state as last logged (f64 images of the chain's values)
+    let (mut p_eps, mut p_epsbar, mut p_hbar, mut p_mu) = (f64::NAN, 1.0f64, 0.0f64, f64::NAN);
+    let atol = if tol > 1e-5 { 2e-5 } else { 1e-9 };
+    let resid = |obs: f64, exp: f64, scale: f64| -> i64 {
+        if !obs.is_finite() || !exp.is_finite() { return if obs.is_finite() == exp.is_finite() { 0 } else { 1000 }; }
+        (((obs - exp).abs() / (atol * (1.0 + scale))).ceil() as i64).min(1000)
+    };
     let off_of_pos = |by_pos: &HashMap<Vec<u64>, Vec<i64>>, p: &[f64]| -> i64 {
         match by_pos.get(&bits(p)) {
             None => -999999,
@@ -180,7 +192,9 @@ pub fn project(raw: &Raw, own: &OwnN, tol: f64) -> Projected {
         match name.as_str() {
             "nuts_init" => {
                 out.adapt.push(json!({"e": "init", "m": ints[0], "nc": ints[1], "nd": ints[2], "eps": fx16(f[0].ln()), "mu": fx16(f[1]),
-                    "eps_pos_finite": f[0] > 0.0 && f[0].is_finite()}));
+                    "eps_pos_finite": f[0] > 0.0 && f[0].is_finite(), "forced": forced}));
+                p_eps = f[0];
+                p_mu = f[1];
             }
             "nuts_begin" => {
                 dim = ints[1] as usize;
@@ -296,9 +310,24 @@ pub fn project(raw: &Raw, own: &OwnN, tol: f64) -> Projected {
                     out.moved += 1;
                 }
                 out.tree.push(json!({"e": "end", "m": ints[0], "na": ints[2], "pos_is_theta": is_theta, "moved": moved}));
+                // the three recurrences re-evaluated in f64 from the previously logged values
+                let m = ints[0] as f64;
+                let a = f[4] / ints[2] as f64;
+                let eta = 1.0 / (m + 10.0);
+                let h_exp = (1.0 - eta) * p_hbar + eta * (delta - a);
+                let e_exp = (p_mu - m.sqrt() / 0.05 * f[2]).exp();
+                let k = m.powf(-0.75);
+                let b_exp = ((1.0 - k) * p_epsbar.ln() + k * f[0].ln()).exp();
+                let (rh, re, rb) = (resid(f[2], h_exp, p_hbar.abs() + 1.0),
+                                    resid(f[0].ln(), e_exp.ln(), p_mu.abs() + 20.0 * m.sqrt() * f[2].abs()),
+                                    resid(f[1].ln(), b_exp.ln(), p_epsbar.ln().abs() + f[0].ln().abs()));
                 out.adapt.push(json!({"e": "step", "m": ints[0], "nd": ints[1], "na": ints[2], "eps": fx16(f[0].ln()), "epsbar": fx16(f[1].ln()),
                     "hbar": fx16(f[2]), "mu": fx16(f[3]), "alpha": fx16(f[4]), "eps_pos_finite": f[0] > 0.0 && f[0].is_finite(),
-                    "epsbar_pos_finite": f[1] > 0.0 && f[1].is_finite()}));
+                    "epsbar_pos_finite": f[1] > 0.0 && f[1].is_finite(), "rh": rh, "re": re, "rb": rb, "a_mean": fx16(a)}));
+                let _ = p_eps;
+                p_eps = f[0];
+                p_epsbar = f[1];
+                p_hbar = f[2];
                 let lp_old = own.logp(&pos_before);
                 let lp_new = own.logp(pos);
                 out.bad.push(json!({"e": "nuts", "m": ints[0], "lp_old": fx16(lp_old), "lp_new": fx16(lp_new),
